@@ -231,6 +231,54 @@ example : downAx 3 2 ⟨0x100, 1, 3, BURST_FIXED, 0⟩ = ⟨0x100, 3, 2, BURST_I
     length wraps to `len = 1`. -/
 example : downAx 3 2 ⟨0, 128, 3, BURST_INCR, 0⟩ = ⟨0, 1, 2, BURST_INCR, 0⟩ := by decide
 
+/-- `upconv_wrap_partial`: a WRAP burst whose start is aligned to the wide word and whose length is a multiple of
+    the ratio is forwarded as a WRAP burst over the same bytes in the same order (same window, same start).
+    (For `(len+1) = ratio` the forwarded "WRAP" has a single beat — the whole window.) -/
+theorem upconv_wrap_partial (k : Nat) (r : Req) (hb : r.burst = BURST_WRAP) (hs : r.size + k < 8)
+    (hal : r.addr % numBytes (r.size + k) = 0) (hmul : (r.len + 1) % 2 ^ k = 0) :
+    burstBytes (upAx k r).addr (upAx k r).len (upAx k r).size (upAx k r).burst
+      = burstBytes r.addr r.len r.size r.burst :=
+  upAx_wrap_bytes k r hb hs hal hmul
+
+/-- `downconv_wrap_partial`: a full-width WRAP burst (start aligned to the wide word, as WRAP legality demands) is
+    forwarded as a WRAP burst of `(len+1)·ratio` narrow transfers over the same bytes in the same order, from any
+    start inside the window.  The forwarded burst is a *legal* AXI WRAP only while `(len+1)·ratio ≤ 16`
+    (known finding C10-downconv-len-overflow covers the rest, negative witness below). -/
+theorem downconv_wrap_partial (sf st : Nat) (r : Req) (hst : st ≤ sf) (hb : r.burst = BURST_WRAP) (hs : r.size = sf)
+    (hal : r.addr % numBytes sf = 0) (hfit : (r.len + 1) * 2 ^ (sf - st) ≤ 256) :
+    burstBytes (downAx sf st r).addr (downAx sf st r).len (downAx sf st r).size (downAx sf st r).burst
+      = burstBytes r.addr r.len r.size r.burst ∧
+    (downAx sf st r).len + 1 = (r.len + 1) * 2 ^ (sf - st) :=
+  downAx_wrap_bytes sf st r hst hb hs hal hfit
+
+/-- hypotheses satisfiable, start above the window base: 64 → 32, WRAP 4 × 8 bytes from 0x1110 (window
+    0x1100..0x111f) becomes WRAP 8 × 4 bytes: 0x1110..0x111f then 0x1100..0x110f. -/
+example : downAx 3 2 ⟨0x1110, 3, 3, BURST_WRAP, 0⟩ = ⟨0x1110, 7, 2, BURST_WRAP, 0⟩ ∧
+    burstBytes 0x1110 7 2 BURST_WRAP = List.range' 0x1110 16 ++ List.range' 0x1100 16 := by decide
+
+/-- Negative witness for WRAP (region of C10-downconv-len-overflow): 16 × 8 bytes become a WRAP of 32 transfers,
+    which AXI does not allow (2, 4, 8 or 16). -/
+example : downAx 3 2 ⟨0x1108, 15, 3, BURST_WRAP, 0⟩ = ⟨0x1108, 31, 2, BURST_WRAP, 0⟩ ∧
+    ¬ Legal 32 ⟨0x1108, 31, 2, BURST_WRAP, 0⟩ BURST_WRAP := by decide
+
+/-- `downconv_single_partial`: a single transfer (INCR or FIXED, `len = 0`) at least as wide as the narrow bus —
+    in particular every size strictly between the two bus widths — is forwarded as the `ratio` full-width narrow
+    transfers of the wide word that contains it (the data path emits exactly these beats; strobes select the
+    bytes). -/
+theorem downconv_single_partial (sf st : Nat) (r : Req) (hst : st ≤ sf) (hk : sf - st ≤ 8)
+    (hb : r.burst = BURST_INCR ∨ r.burst = BURST_FIXED) (hlen0 : r.len = 0) (hs1 : st ≤ r.size) :
+    burstBytes (downAx sf st r).addr (downAx sf st r).len (downAx sf st r).size (downAx sf st r).burst
+      = List.range' (alignedAddr r.addr sf) (numBytes sf) :=
+  downAx_single_bytes sf st r hst hk hb hlen0 hs1
+
+/-- hypotheses satisfiable: 128 → 32, one 8-byte transfer at 0x48 (size strictly between the bus widths). -/
+example : downAx 4 2 ⟨0x48, 0, 3, BURST_INCR, 0⟩ = ⟨0x40, 3, 2, BURST_INCR, 0⟩ := by decide
+
+/-- Negative witness (region of C10-downconv-narrow-burst, size below the narrow bus width): 64 → 32, one byte at
+    0xec is forwarded as two 1-byte transfers at 0xe8, 0xe9 — byte 0xec is never addressed. -/
+example : downAx 3 2 ⟨0xec, 0, 0, BURST_INCR, 0⟩ = ⟨0xe8, 1, 0, BURST_INCR, 0⟩ ∧
+    burstBytes 0xe8 1 0 BURST_INCR = [0xe8, 0xe9] := by decide
+
 /-! ### Width converters: data channels
 
   The W and R paths are `stream.StrideConverter`s; their model is the shared stream-converter model
